@@ -19,7 +19,10 @@ let rec gens = function
 
 let parse_action (ws : string list) : action option =
   match ws with
-  | "insert" :: h :: "comp" :: lc :: _n :: rest -> Some (AInsert (ns h, SComp ((lc = "1"), None, gens rest)))
+  | "insert" :: h :: "comp" :: lc :: _n :: rest -> Some (AInsert (ns h, SComp ((lc = "1"), None, gens rest, None)))
+  | "insert" :: h :: "compt" :: lc :: dl :: _n :: rest ->
+      Some (AInsert (ns h, SComp ((lc = "1"), None, gens rest,
+                                  Some { tm_reg = None; tm_dl = (if dl = "-1" then None else Some (zs dl)); tm_en = false })))
   | ["insert"; h; "ping"; fd] -> Some (AInsert (ns h, SPing (mkgen fd "1" "0")))
   | ["insert"; h; "timer"; dl] -> Some (AInsert (ns h, STimer { tm_reg = None; tm_dl = (if dl = "-1" then None else Some (zs dl)); tm_en = false }))
   | ["insert"; h; "chan"; c; fd] -> Some (AInsert (ns h, SChan (ns c, mkgen fd "1" "0")))
